@@ -419,6 +419,8 @@ def evaluate__abs(self: XPathFunction, context: ta.ContextType = None) \
             raise self.error('FOCA0002', "invalid string value {!r} for {!r}".format(value, item))
     elif isinstance(item, bool) or not isinstance(item, (float, int, Decimal)):
         raise self.error('XPTY0004', "invalid argument type {!r}".format(type(item)))
+    elif isinstance(item, Decimal):
+        return item.copy_abs()  # exact: abs() rounds to the precision of the context
     else:
         return cast(NumericType, abs(item))
 
